@@ -10,7 +10,7 @@ Funs3 == BuiltinNames \ {"now", "toDay"}
 AllBinOps == BinOps \cup {","}
 Vals3x == Vals3 \cup {Id("im"), Id("ps"), Id("tm")}
 Callees3 == Funs3 \cup {"rec", "fail", "failv", "add2", "cat", "crec", "cstr", "nl", "np", "i", "s", "m", "undefined", "st"}
-GroupsC03 == { <<"call", f>> : f \in Callees3 } \cup { <<"bin", op>> : op \in AllBinOps } \cup { <<"misc">> } \cup { <<"alias">> }
+GroupsC03 == { <<"call", f>> : f \in Callees3 } \cup { <<"bin", op>> : op \in AllBinOps } \cup { <<"misc">> } \cup { <<"alias">> } \cup { <<"grow">> }
              \cup { <<"call3", f>> : f \in {"mid", "lpad", "rpad", "replace", "date", "left", "max", "addDate", "roundCash"} }
 GroupProgramsC03(g) ==
   CASE g[1] = "call" ->
@@ -32,6 +32,16 @@ GroupProgramsC03(g) ==
             \cup { SeqA(h, <<"Pre", op, Id("$a")>>) : h \in Holders, op \in PrefixOps }
             \cup { SeqA(h, e) : h \in Holders, e \in { <<"Typeof", Id("$a")>>, <<"Sel", <<"Sel", Id("$a"), "$a", FALSE>>, "x", FALSE>>, <<"Arr", <<Id("$a"), KwL("this")>>>>,
                                                         <<"Cond", Id("$a"), Id("$a"), N(1)>> } }
+    \* evaluation terminates: forty chained self-applications keep the size of the value bounded (numbers are rounded to 34
+    \* digits), so a short formula cannot ask for unbounded work
+    [] g[1] = "grow" ->
+         LET RECURSIVE Chain(_, _, _)
+             Chain(start, step, n) == IF n = 0 THEN <<"Bin", "=", Id("$a"), start>>
+                                      ELSE <<"Bin", ",", Chain(start, step, n - 1), <<"Bin", "=", Id("$a"), step>>>>
+             Near1 == <<"Lit", "Num", <<FALSE, <<1,0,0,0,0,0,0,0,0,0,1>>, -10>>>>
+         IN { <<"Bin", ",", Chain(Near1, <<"Bin", "*", Id("$a"), Id("$a")>>, 40), Id("$a")>>,
+              <<"Bin", ",", Chain(Near1, <<"Bin", "+", <<"Bin", "*", Id("$a"), Id("$a")>>, <<"Bin", "/", Id("$a"), N(3)>>>>, 12), <<"Bin", ">", Id("$a"), N(1)>>>>,
+              <<"Bin", ",", Chain(N(3), <<"Bin", "/", Id("$a"), Near1>>, 40), <<"Bin", "<", Id("$a"), N(3)>>>> }
     [] g[1] = "misc" ->
          { <<"Pre", op, a>> : op \in PrefixOps, a \in Vals3x }
          \cup { <<"Typeof", a>> : a \in Vals3 }
